@@ -1946,3 +1946,74 @@ V("C16", "C16.R1", "c16-silent-splitlines", "shroud/util.py",
   '''        lines = str(text).splitlines()
         if not lines and tag:
             lines = [""]''', "silent")
+
+# ---------------------------------------------------------------------------
+# rows 81-88
+# ---------------------------------------------------------------------------
+V("C08", "C08.R8", "c08-abstract-interface-first-wins", "shroud/wrapf.py",
+  '''        if entry is not None and str(entry[2]) != str(arg):
+            # Overloaded functions may have the same argument name
+            # for different function pointers.
+            name = name + fmt.function_suffix
+            entry = fileinfo.f_abstract_interface.get(name)
+''', '', "fire", "F_abstract_interface_subprogram_template")
+V("C08", "C08.R8", "c08-silent-abstract-interface-suffix-in-template", "shroud/ast.py",
+  '''F_abstract_interface_subprogram_template="{underscore_name}_{argname}"''',
+  '''F_abstract_interface_subprogram_template="{underscore_name}{function_suffix}_{argname}"''', "silent")
+V("C04", "C04.R15", "c04-direct-binding-label-from-attribute", "shroud/wrapc.py",
+  '''            fmt_func.C_name = node.ast.get_name(use_attr=False)''',
+  '''            fmt_func.C_name = node.ast.name''', "fire", "C_name")
+V("C04", "C04.R15", "c04-silent-direct-binding-declarator-name", "shroud/wrapc.py",
+  '''            fmt_func.C_name = node.ast.get_name(use_attr=False)''',
+  '''            fmt_func.C_name = node.ast.get_name(False)''', "silent")
+V("C01", "C01.G1", "c01-fortran-scope-kept-per-c-function", "shroud/wrapf.py",
+  '''            fmt_arg = fmt_arg0["fmtf"] = util.Scope(fmt_func)
+            fmt_arg.f_var = arg_name''',
+  '''            fmt_arg = fmt_arg0.setdefault("fmtf", util.Scope(fmt_func))
+            fmt_arg.f_var = arg_name''', "fire", "memo-scope-owner")
+V("C03", "C03.R18", "c03-implied-only-in-last-case", "shroud/wrapp.py",
+  '''                PY_code.extend(pre_call_case)''',
+  '''                PY_code.extend(pre_call_code[:pre_call_len])''', "fire", "pre_call_code:tail")
+V("C18", "C18.R8", "c18-subprogram-of-first-overload", "shroud/wrapl.py",
+  '''            if not is_dtor:
+                # Overloads may differ in having a result.
+                CXX_subprogram = function.ast.get_subprogram()
+''', '', "fire", "subprogram")
+V("C18", "C18.R8", "c18-char-result-statements-missing", "shroud/wrapl.py",
+  '''    dict(
+        name="lua_char_*_result",
+        mixin=[
+            "lua_mixin_callfunction",
+            "lua_mixin_push"
+        ],
+    ),
+''', '', "fire", "lua_statements[char]:result")
+V("C15", "C15.R9", "c15-enum-flag-not-tested", "shroud/wrapf.py",
+  '''        for node in node.enums:
+            if node.wrap.fortran:
+                self.wrap_enum(None, node, fileinfo)''',
+  '''        for node in node.enums:
+            self.wrap_enum(None, node, fileinfo)''', "fire", "wrap_enum")
+V("C15", "C15.R9", "c15-enum-flag-of-other-wrapper", "shroud/wrapp.py",
+  '''            if enum.wrap.python:
+                self.wrap_enum(enum)''',
+  '''            if enum.wrap.c:
+                self.wrap_enum(enum)''', "fire", "wrap_enum")
+V("C15", "C15.R9", "c15-silent-enum-flag-early-return", "shroud/wrapc.py",
+  '''        for node in node.enums:
+            if node.wrap.c:
+                self.wrap_enum(None, node)''',
+  '''        for node in node.enums:
+            if not node.wrap.c:
+                continue
+            self.wrap_enum(None, node)''', "silent")
+V("C15", "C15.R9", "c15-setter-flags-of-class", "shroud/generate.py",
+  '''        fcn.ast.params[0].metaattrs["intent"] = "in"
+        fcn.wrap.assign(c=var.wrap.c, fortran=var.wrap.fortran)''',
+  '''        fcn.ast.params[0].metaattrs["intent"] = "in"
+        fcn.wrap.lua = False
+        fcn.wrap.python = False''', "fire", "flags-of-variable")
+V("C15", "C15.R9", "c15-descriptor-always-written", "shroud/wrapp.py",
+  '''            if var.wrap.python:
+                self.wrap_class_variable(node, var, fileinfo)''',
+  '''            self.wrap_class_variable(node, var, fileinfo)''', "fire", "wrap_class_variable")
